@@ -49,6 +49,19 @@ def soundness_of_detection(run, f, name):
         c15.panic_condition(shim, f, det)
     except Exception as e:      # fail closed
         shim.fail("ENGINE", "c15-in-c18:%s" % type(e).__name__, "rule engine raised %r" % (e,))
+    # the bookkeeping itself (the region of ask under the graph lock, the guard's destructor) runs for every
+    # ask from an actor, cycle or not: a panic site in it is a panic the default build does not have, and one
+    # under the lock poisons the mutex for every later ask. Only the panic-freedom obligations of the lock
+    # discipline are necessary here (where the lock is taken, and the deliberate panic, are C12's / C15's).
+    from rules import c12
+    shim12 = Run("C12", run.tier, run.seed)
+    shim12.cur_config = name
+    try:
+        c12.lock_discipline(shim12, f)
+    except Exception as e:      # fail closed
+        shim12.fail("ENGINE", "destructor-never-panics:c12-in-c18:%s" % type(e).__name__, "rule engine raised %r" % (e,))
+    PANIC_FREE = ("no-panic-under-graph-lock", "destructor-never-panics", "drop-impl", "guard-region", "detection-anchor")
+    shim.obligations += [o for o in shim12.obligations if o["anchor"].startswith(PANIC_FREE)]
     n_ok = 0
     for o in shim.obligations:
         if o["ok"]:
